@@ -14,4 +14,4 @@ Extraction "C18_model.ml" wire_anchor
   isupper_s islower_s isdigit_s isalpha_s isalnum_s isxdigit_s isspace_s isblank_s isprint_s iscntrl_s isgraph_s
   ispunct_s tolower_s toupper_s
   str_of sign_of array_ok upto_nul upto_nul_excl strlen_s strcmp_s strncmp_s memcmp_s strchr_s strrchr_s memchr_s strspn_s strcspn_s
-  strpbrk_s strstr_s strcpy_s strncpy_s strcat_s strncat_s memcpy_s memset_s memmove_s div_s conv_char.
+  strpbrk_s strstr_s strcpy_s strncpy_s strcat_s strncat_s memcpy_s memset_s memmove_s div_s conv_char precondition_violated strrchr_null_s.
